@@ -298,6 +298,14 @@ example : ∃ s, Stream.Reach ⟨Stream.code, 1, 2, 8⟩ s ∧ s.cons = .closed 
       .srcRet (.err 9002), .dCloseIn, .srcCloseRet, .dEgDone, .fRet 0 (.ok 101), .wSendCtx 0, .wDefer 0, .wEgDone 0,
       .cCloseDone]) rfl, rfl, rfl⟩
 
+/-- non-vacuity at the boundary "the context handed to `MapStream` is already done": the environment's
+`parentCancel` is the first label; the dispatcher still calls the source once (which returns the context's
+error), closes it, and `Close` returns with the source closed exactly once -/
+example : ∃ s, Stream.Reach ⟨Stream.code, 1, 1, 8⟩ s ∧ s.cons = .closed ∧ s.results = [] ∧
+    s.srcLog = [.nextBegin, .nextEnd, .closeBegin, .closeEnd] :=
+  ⟨_, Stream.reach_of_run Stream.Reach.init (ls := [.parentCancel, .dPull, .srcRet (.err 9001), .dCloseIn,
+      .srcCloseRet, .dEgDone, .wExitIdle 0, .wDefer 0, .wEgDone 0, .closeCall, .cCloseDone]) rfl, rfl, rfl, rfl⟩
+
 /-- dependence on `closeWaits` / `closeCancels`: in the LTS of a `Close` that does not wait for the errgroup,
 `Close` returns while the dispatcher is inside the source's `Next` and a call of `f` is running; in the LTS
 of a `Close` that waits without cancelling first, the library's context is still live while `Close` waits. -/
